@@ -55,7 +55,9 @@ def run(ctx):
     rng = ctx.rng
     ob = "accepted/refused and the level at which the curve is zero = model refIndex on the typed decimals"
     for d_i in range(ndata):
-        tr = P.gen_truth(rng, noise=rng.choice([0.0, 0.4]))
+        # water levels near the datum, or metres below / above it (well head far from the peat surface)
+        tr = P.gen_truth(rng, noise=rng.choice([0.0, 0.4]),
+                         datum=(0.0 if d_i % 3 == 0 else float(rng.choice([-1, 1]) * rng.randint(900, 4000))))
         for step_s in (STEPS if ctx.tier != "quick" else rng.sample(STEPS, 5) + ["0.1"]):
             step = float(step_s)
             w = P.run_workflow(ctx, tr.rows(), tr.s, tr.j, step, keep_db=True, steps=("load", "classify", "grid"))
